@@ -551,7 +551,7 @@ func (g *gen) genPacket(names []string, idx int) *Pkt {
 	}
 	// checksum, usually last
 	if r.Chance(1, 4) {
-		cf := &Fld{Kind: FChecksum, Name: g.fieldName(local), Type: r.Pick([]string{"u8", "u16", "u32", "i32", "uint32"}), Target: `"` + r.Pick([]string{"CRC32", "CRC16", "SUM8", "MD5"}) + `"`, Desc: g.desc(), AttrForm: r.Chance(1, 3)}
+		cf := &Fld{Kind: FChecksum, Name: g.fieldName(local), Type: r.Pick([]string{"u8", "u16", "u32", "i32", "uint32"}), Target: `"` + r.Pick([]string{"CRC32", "CRC16", "SUM8", "MD5", "crc32", "Crc16", "sum8", "adler-32", "xor 8"}) + `"`, Desc: g.desc(), AttrForm: r.Chance(1, 3)}
 		if r.Chance(5, 6) {
 			pk.Fields = append(pk.Fields, cf)
 		} else {
